@@ -3,6 +3,7 @@
 package rtmp
 
 import (
+	"encoding/binary"
 	"fmt"
 	"io"
 	"strings"
@@ -546,6 +547,35 @@ func TestVerif_C02_Random(t *testing.T) {
 	})
 }
 
+// verifPeerControl: the body of a User Control (4) or Window Acknowledgement Size (5) message as peers send them — the
+// reader decodes these on arrival, so what servers and librtmp really emit must pass: the standard events with their 4- or
+// 8-byte data, the FMS 0x1a event with one byte, librtmp's SWF verification request/response (0x1a / 0x1b with 42 bytes),
+// events this library has no name for.  nil for every other message type.
+func verifPeerControl(r *vrand.Rand, typ uint8) []byte {
+	switch typ {
+	case 5:
+		b := make([]byte, 4)
+		binary.BigEndian.PutUint32(b, uint32(r.Pick(1, 2500000, 5000000, 0x7fffffff)))
+		return b
+	case 4:
+		ev := uint16(r.Pick(0, 1, 2, 3, 4, 6, 7, 0x1a, 0x1b, 0x1f, 0x20, 0x22))
+		n := 4
+		switch ev {
+		case 3:
+			n = 8
+		case 0x1a:
+			n = 1
+		case 0x1b:
+			n = 42
+		}
+		b := make([]byte, 2+n)
+		binary.BigEndian.PutUint16(b, ev)
+		r.Fill(b[2:])
+		return b
+	}
+	return nil
+}
+
 func verifRandomTrace(r *vrand.Rand, m *mon.M) (verifWire, string) {
 	return verifRandomTraceN(r, m, 0, 0)
 }
@@ -647,6 +677,9 @@ func verifRandomTraceN(r *vrand.Rand, m *mon.M, forceStreams, forceMsgs int) (ve
 		f := 0
 		if used {
 			f = r.Intn(4)
+			if (ptyp == 4 || ptyp == 5) && f >= 2 {
+				f = r.Intn(2) // a header that inherits type and length would carry a PRNG body: control messages stay well-formed
+			}
 		}
 		msg := refrtmp.Msg{Csid: id}
 		delta := uint32(r.Intn(100))
@@ -679,14 +712,22 @@ func verifRandomTraceN(r *vrand.Rand, m *mon.M, forceStreams, forceMsgs int) (ve
 		switch f {
 		case 0:
 			msg.Timestamp = uint32(r.PickU64(0, uint64(r.Intn(100000)), 0xfffffe, 0xffffff, 0x1000000, 0x7fffffff, 0x80000000+uint64(r.Intn(1000)), 0xffffffff))
-			msg.Type = uint8(r.Pick(8, 9, 18, 20, 22, 3, 6, 15, 17, 100))
+			msg.Type = uint8(r.Pick(8, 9, 18, 20, 22, 3, 6, 15, 17, 100, 4, 5))
 			msg.StreamID = uint32(r.PickU64(0, 1, uint64(r.Uint32())))
 			msg.Payload = r.Bytes(verifMin(genLen(), 70000))
+			if b := verifPeerControl(r, msg.Type); b != nil {
+				msg.Payload, msg.StreamID = b, 0
+				m.Count("peer_control_messages_in_traces", 1)
+			}
 		case 1:
 			msg.Timestamp = pts + delta
-			msg.Type = uint8(r.Pick(8, 9, 18, 20))
+			msg.Type = uint8(r.Pick(8, 9, 18, 20, 4))
 			msg.StreamID = psid
 			msg.Payload = r.Bytes(verifMin(genLen(), 70000))
+			if b := verifPeerControl(r, msg.Type); b != nil {
+				msg.Payload = b
+				m.Count("peer_control_messages_in_traces", 1)
+			}
 		case 2:
 			msg.Timestamp = pts + delta
 			msg.Type, msg.StreamID = ptyp, psid
